@@ -3,5 +3,8 @@ import Dashu.Props.C11Powi
 #print axioms Dashu.Props.C11Powi.powi_nonneg_error
 #print axioms Dashu.Props.C11Powi.powi_nonneg_half_lt_ulp
 #print axioms Dashu.Props.C11Powi.workPrec_eq
+#print axioms Dashu.Props.C11Powi.powi_neg_error
+#print axioms Dashu.Props.C11Powi.powi_neg_half_lt_ulp
+#print axioms Dashu.Props.C11Powi.coarseNone_sound
 #print axioms Dashu.Props.C11Powi.powi_model_reproduces
 #print axioms Dashu.Props.C11Powi.powi_directed_counterexample
